@@ -255,17 +255,31 @@ package node_info
 //@   modifies ni.UsedSharedGPUsMemory[*], ni.ReleasingSharedGPUsMemory[*], ni.AllocatedSharedGPUsMemory[*], ni.ReleasingSharedGPUs[*], ni.Idle.gpus, ni.Releasing.gpus, ni.IdleVector[*], ni.ReleasingVector[*], sumIdleGPUs(ni), sumIdleGPUMem(ni), sumReleasingGPUs(ni), sumReleasingGPUMem(ni)
 //@   loop 1
 //@     invariant 0 - 1 <= rangeindex && rangeindex < len(task.GPUGroups) && nodeWF(ni)
-//@     invariant forall g string :: !inGroups(task, g) ==> ni.UsedSharedGPUsMemory[g] == old(ni.UsedSharedGPUsMemory[g]) && ni.ReleasingSharedGPUsMemory[g] == old(ni.ReleasingSharedGPUsMemory[g]) && ni.AllocatedSharedGPUsMemory[g] == old(ni.AllocatedSharedGPUsMemory[g]) && markedReleasing(ni, g) == old(markedReleasing(ni, g)) && (g in ni.AllocatedSharedGPUsMemory <==> old(g in ni.AllocatedSharedGPUsMemory)) && (g in ni.UsedSharedGPUsMemory <==> old(g in ni.UsedSharedGPUsMemory))
-//@     invariant distinctGroups(task) ==> forall i int :: 0 <= i && i < len(task.GPUGroups) ==> ni.UsedSharedGPUsMemory[task.GPUGroups[i]] == old(ni.UsedSharedGPUsMemory[task.GPUGroups[i]]) + ite(i <= rangeindex, needMem(ni, task.ResReq), 0)
-//@     invariant distinctGroups(task) ==> forall i int :: 0 <= i && i < len(task.GPUGroups) ==> ni.ReleasingSharedGPUsMemory[task.GPUGroups[i]] == old(ni.ReleasingSharedGPUsMemory[task.GPUGroups[i]]) + ite(i <= rangeindex, relDelta(ni, task), 0)
-//@     invariant distinctGroups(task) ==> forall i int :: 0 <= i && i < len(task.GPUGroups) ==> ni.AllocatedSharedGPUsMemory[task.GPUGroups[i]] == old(ni.AllocatedSharedGPUsMemory[task.GPUGroups[i]]) + ite(i <= rangeindex, allocDelta(ni, task), 0)
 //@     invariant rangeindex == 0 - 1 ==> ni.Idle.gpus == old(ni.Idle.gpus) && ni.Releasing.gpus == old(ni.Releasing.gpus)
-//@   ensures [noop] task.ResourceReceivedType != "Fraction" ==> forall g string :: ni.UsedSharedGPUsMemory[g] == old(ni.UsedSharedGPUsMemory[g]) && ni.ReleasingSharedGPUsMemory[g] == old(ni.ReleasingSharedGPUsMemory[g]) && ni.AllocatedSharedGPUsMemory[g] == old(ni.AllocatedSharedGPUsMemory[g]) && markedReleasing(ni, g) == old(markedReleasing(ni, g))
+//@     invariant forall r *ri.Resource :: r != ni.Idle && r != ni.Releasing ==> r.gpus == old(r.gpus)
+//@     invariant forall n *NodeInfo :: n != ni ==> sumIdleGPUs(n) == old(sumIdleGPUs(n)) && sumIdleGPUMem(n) == old(sumIdleGPUMem(n)) && sumReleasingGPUs(n) == old(sumReleasingGPUs(n)) && sumReleasingGPUMem(n) == old(sumReleasingGPUMem(n))
+//@     invariant forall m map[string]int64 :: m != ni.UsedSharedGPUsMemory && m != ni.ReleasingSharedGPUsMemory && m != ni.AllocatedSharedGPUsMemory ==> dom(m) == old(dom(m))
+//@     invariant forall m map[string]int64, k string :: m != ni.UsedSharedGPUsMemory && m != ni.ReleasingSharedGPUsMemory && m != ni.AllocatedSharedGPUsMemory ==> m[k] == old(m[k])
+//@     invariant forall m map[string]bool :: m != ni.ReleasingSharedGPUs ==> dom(m) == old(dom(m))
+//@     invariant forall m map[string]bool, k string :: m != ni.ReleasingSharedGPUs ==> m[k] == old(m[k])
 //@   ensures [noopGpus] task.ResourceReceivedType != "Fraction" || len(task.GPUGroups) == 0 ==> ni.Idle.gpus == old(ni.Idle.gpus) && ni.Releasing.gpus == old(ni.Releasing.gpus)
-//@   ensures [others] forall g string :: !inGroups(task, g) ==> ni.UsedSharedGPUsMemory[g] == old(ni.UsedSharedGPUsMemory[g]) && ni.ReleasingSharedGPUsMemory[g] == old(ni.ReleasingSharedGPUsMemory[g]) && ni.AllocatedSharedGPUsMemory[g] == old(ni.AllocatedSharedGPUsMemory[g]) && markedReleasing(ni, g) == old(markedReleasing(ni, g)) && (g in ni.AllocatedSharedGPUsMemory <==> old(g in ni.AllocatedSharedGPUsMemory))
-//@   ensures [used] task.ResourceReceivedType == "Fraction" && distinctGroups(task) ==> forall i int :: 0 <= i && i < len(task.GPUGroups) ==> ni.UsedSharedGPUsMemory[task.GPUGroups[i]] == old(ni.UsedSharedGPUsMemory[task.GPUGroups[i]]) + needMem(ni, task.ResReq)
-//@   ensures [releasing] task.ResourceReceivedType == "Fraction" && distinctGroups(task) ==> forall i int :: 0 <= i && i < len(task.GPUGroups) ==> ni.ReleasingSharedGPUsMemory[task.GPUGroups[i]] == old(ni.ReleasingSharedGPUsMemory[task.GPUGroups[i]]) + relDelta(ni, task)
-//@   ensures [allocated] task.ResourceReceivedType == "Fraction" && distinctGroups(task) ==> forall i int :: 0 <= i && i < len(task.GPUGroups) ==> ni.AllocatedSharedGPUsMemory[task.GPUGroups[i]] == old(ni.AllocatedSharedGPUsMemory[task.GPUGroups[i]]) + allocDelta(ni, task)
+//@   ensures nodeWF(ni)
+//@ end
+
+//@ func (*NodeInfo).removeSharedTaskResources
+//@   props C02 C14
+//@   requires nodeWF(ni) && task != nil && task.ResReq != nil
+//@   modifies ni.UsedSharedGPUsMemory[*], ni.ReleasingSharedGPUsMemory[*], ni.AllocatedSharedGPUsMemory[*], ni.ReleasingSharedGPUs[*], ni.Idle.gpus, ni.Releasing.gpus, ni.IdleVector[*], ni.ReleasingVector[*], sumIdleGPUs(ni), sumIdleGPUMem(ni), sumReleasingGPUs(ni), sumReleasingGPUMem(ni)
+//@   loop 1
+//@     invariant 0 - 1 <= rangeindex && rangeindex < len(task.GPUGroups) && nodeWF(ni)
+//@     invariant rangeindex == 0 - 1 ==> ni.Idle.gpus == old(ni.Idle.gpus) && ni.Releasing.gpus == old(ni.Releasing.gpus)
+//@     invariant forall r *ri.Resource :: r != ni.Idle && r != ni.Releasing ==> r.gpus == old(r.gpus)
+//@     invariant forall n *NodeInfo :: n != ni ==> sumIdleGPUs(n) == old(sumIdleGPUs(n)) && sumIdleGPUMem(n) == old(sumIdleGPUMem(n)) && sumReleasingGPUs(n) == old(sumReleasingGPUs(n)) && sumReleasingGPUMem(n) == old(sumReleasingGPUMem(n))
+//@     invariant forall m map[string]int64 :: m != ni.UsedSharedGPUsMemory && m != ni.ReleasingSharedGPUsMemory && m != ni.AllocatedSharedGPUsMemory ==> dom(m) == old(dom(m))
+//@     invariant forall m map[string]int64, k string :: m != ni.UsedSharedGPUsMemory && m != ni.ReleasingSharedGPUsMemory && m != ni.AllocatedSharedGPUsMemory ==> m[k] == old(m[k])
+//@     invariant forall m map[string]bool :: m != ni.ReleasingSharedGPUs ==> dom(m) == old(dom(m))
+//@     invariant forall m map[string]bool, k string :: m != ni.ReleasingSharedGPUs ==> m[k] == old(m[k])
+//@   ensures [noopGpus] task.ResourceReceivedType != "Fraction" || len(task.GPUGroups) == 0 ==> ni.Idle.gpus == old(ni.Idle.gpus) && ni.Releasing.gpus == old(ni.Releasing.gpus)
 //@   ensures nodeWF(ni)
 //@ end
 
@@ -386,9 +400,24 @@ package node_info
 //@   ensures [idleGpus] task.ResourceReceivedType != "Fraction" ==> ni.Idle.gpus == old(ni.Idle.gpus) - idlePart(task, nodeChargedGpus(task))
 //@   ensures [relGpus] task.ResourceReceivedType != "Fraction" ==> ni.Releasing.gpus == old(ni.Releasing.gpus) + relPart(task, nodeChargedGpus(task))
 //@   ensures [sharedUntouched] task.ResourceReceivedType != "Fraction" ==> forall g string :: ni.UsedSharedGPUsMemory[g] == old(ni.UsedSharedGPUsMemory[g]) && ni.ReleasingSharedGPUsMemory[g] == old(ni.ReleasingSharedGPUsMemory[g]) && ni.AllocatedSharedGPUsMemory[g] == old(ni.AllocatedSharedGPUsMemory[g]) && markedReleasing(ni, g) == old(markedReleasing(ni, g))
-//@   ensures [sharedUsed] task.ResourceReceivedType == "Fraction" && distinctGroups(task) ==> forall i int :: 0 <= i && i < len(task.GPUGroups) ==> ni.UsedSharedGPUsMemory[task.GPUGroups[i]] == old(ni.UsedSharedGPUsMemory[task.GPUGroups[i]]) + needMem(ni, task.ResReq)
-//@   ensures [sharedAllocated] task.ResourceReceivedType == "Fraction" && distinctGroups(task) ==> forall i int :: 0 <= i && i < len(task.GPUGroups) ==> ni.AllocatedSharedGPUsMemory[task.GPUGroups[i]] == old(ni.AllocatedSharedGPUsMemory[task.GPUGroups[i]]) + allocDelta(ni, task)
-//@   ensures [sharedReleasing] task.ResourceReceivedType == "Fraction" && distinctGroups(task) ==> forall i int :: 0 <= i && i < len(task.GPUGroups) ==> ni.ReleasingSharedGPUsMemory[task.GPUGroups[i]] == old(ni.ReleasingSharedGPUsMemory[task.GPUGroups[i]]) + relDelta(ni, task)
-//@   ensures [sharedOthers] forall g string :: !inGroups(task, g) ==> ni.UsedSharedGPUsMemory[g] == old(ni.UsedSharedGPUsMemory[g]) && ni.ReleasingSharedGPUsMemory[g] == old(ni.ReleasingSharedGPUsMemory[g]) && ni.AllocatedSharedGPUsMemory[g] == old(ni.AllocatedSharedGPUsMemory[g]) && markedReleasing(ni, g) == old(markedReleasing(ni, g))
+//@   ensures nodeWF(ni)
+//@ end
+
+// removal is the exact mirror of the addition (C14: "AddTask/RemoveTask symmetry")
+//@ func (*NodeInfo).removeTaskResources
+//@   props C01 C14 C02
+//@   requires nodeWF(ni) && taskChargeable(task)
+//@   modifies ni.Used.milliCpu, ni.Used.memory, ni.Used.gpus, ni.Used.scalarResources[*], ni.Idle.milliCpu, ni.Idle.memory, ni.Idle.gpus, ni.Idle.scalarResources[*], ni.Releasing.milliCpu, ni.Releasing.memory, ni.Releasing.gpus, ni.Releasing.scalarResources[*], ni.UsedVector[*], ni.IdleVector[*], ni.ReleasingVector[*], ni.UsedSharedGPUsMemory[*], ni.ReleasingSharedGPUsMemory[*], ni.AllocatedSharedGPUsMemory[*], ni.ReleasingSharedGPUs[*], sumIdleGPUs(ni), sumIdleGPUMem(ni), sumReleasingGPUs(ni), sumReleasingGPUMem(ni)
+//@   ensures [usedCpuMem] ni.Used.milliCpu == old(ni.Used.milliCpu) - task.AcceptedResource.milliCpu && ni.Used.memory == old(ni.Used.memory) - task.AcceptedResource.memory
+//@   ensures [idleCpuMem] ni.Idle.milliCpu == old(ni.Idle.milliCpu) + idlePart(task, task.AcceptedResource.milliCpu) && ni.Idle.memory == old(ni.Idle.memory) + idlePart(task, task.AcceptedResource.memory)
+//@   ensures [relCpuMem] ni.Releasing.milliCpu == old(ni.Releasing.milliCpu) - relPart(task, task.AcceptedResource.milliCpu) && ni.Releasing.memory == old(ni.Releasing.memory) - relPart(task, task.AcceptedResource.memory)
+//@   ensures [usedScalars] forall k v1.ResourceName :: ni.Used.scalarResources[k] == old(ni.Used.scalarResources[k]) - old(chargedScalar(task, k))
+//@   ensures [idleScalars] forall k v1.ResourceName :: ni.Idle.scalarResources[k] == old(ni.Idle.scalarResources[k]) + old(idlePartI(task, chargedScalar(task, k)))
+//@   ensures [relScalars] forall k v1.ResourceName :: ni.Releasing.scalarResources[k] == old(ni.Releasing.scalarResources[k]) - old(relPartI(task, chargedScalar(task, k)))
+//@   ensures [idleScalarDom] forall k v1.ResourceName :: k in ni.Idle.scalarResources <==> ite(old(chargedHas(task, k) && task.Status != pod_status.Pipelined), ni.Idle.scalarResources[k] != 0, old(k in ni.Idle.scalarResources))
+//@   ensures [usedGpus] ni.Used.gpus == old(ni.Used.gpus) - nodeChargedGpus(task)
+//@   ensures [idleGpus] task.ResourceReceivedType != "Fraction" ==> ni.Idle.gpus == old(ni.Idle.gpus) + idlePart(task, nodeChargedGpus(task))
+//@   ensures [relGpus] task.ResourceReceivedType != "Fraction" ==> ni.Releasing.gpus == old(ni.Releasing.gpus) - relPart(task, nodeChargedGpus(task))
+//@   ensures [sharedUntouched] task.ResourceReceivedType != "Fraction" ==> forall g string :: ni.UsedSharedGPUsMemory[g] == old(ni.UsedSharedGPUsMemory[g]) && ni.ReleasingSharedGPUsMemory[g] == old(ni.ReleasingSharedGPUsMemory[g]) && ni.AllocatedSharedGPUsMemory[g] == old(ni.AllocatedSharedGPUsMemory[g]) && markedReleasing(ni, g) == old(markedReleasing(ni, g))
 //@   ensures nodeWF(ni)
 //@ end
